@@ -27,6 +27,7 @@ type Graph struct {
 	Entry int
 	Exits []int // vertices of return statements (including the synthetic fall-off return)
 	lockCls []map[string]bool
+	writeVerts map[types.Object][]int
 	// Dead-end vertices: end vertices of live blocks with no successors and no return (panic etc).
 	NoRet []int
 }
@@ -308,7 +309,13 @@ func (g *Graph) GuardsAt(v int) []Atom {
 		for k := 0; k < 2; k++ {
 			seen, _ := g.reach([]int{g.Entry}, nil, func(u, kk int) bool { return u == ev && kk == k })
 			if v != g.Entry && !seen[v] {
-				splitAtoms(cond, k == 0, &atoms)
+				var as []Atom
+				splitAtoms(cond, k == 0, &as)
+				for _, a := range as {
+					if !g.staleBetween(a.E, ev, v) {
+						atoms = append(atoms, a)
+					}
+				}
 			}
 		}
 	}
@@ -472,4 +479,172 @@ func inspectNoLit(n ast.Node, fn func(ast.Node)) {
 		fn(x)
 		return true
 	})
+}
+
+// ---- three-valued path exploration ----------------------------------------------------------
+
+type tri int
+
+const (
+	triUnknown tri = iota
+	triTrue
+	triFalse
+)
+
+func triNot(t tri) tri {
+	switch t {
+	case triTrue:
+		return triFalse
+	case triFalse:
+		return triTrue
+	}
+	return triUnknown
+}
+
+// evalTri evaluates a boolean expression in Kleene logic; leaf decides the atoms.
+func evalTri(e ast.Expr, leaf func(ast.Expr) tri) tri {
+	e = ast.Unparen(e)
+	switch x := e.(type) {
+	case *ast.UnaryExpr:
+		if x.Op == token.NOT {
+			return triNot(evalTri(x.X, leaf))
+		}
+	case *ast.BinaryExpr:
+		switch x.Op {
+		case token.LAND:
+			a, b := evalTri(x.X, leaf), evalTri(x.Y, leaf)
+			if a == triFalse || b == triFalse {
+				return triFalse
+			}
+			if a == triTrue && b == triTrue {
+				return triTrue
+			}
+			return triUnknown
+		case token.LOR:
+			a, b := evalTri(x.X, leaf), evalTri(x.Y, leaf)
+			if a == triTrue || b == triTrue {
+				return triTrue
+			}
+			if a == triFalse && b == triFalse {
+				return triFalse
+			}
+			return triUnknown
+		}
+	}
+	return leaf(e)
+}
+
+// ReachUnder computes the vertices reachable from entry when branch conditions are evaluated in
+// three-valued logic under an abstract valuation (leaf): a branch whose condition is definitely
+// false/true is pruned, unknown conditions follow both edges. Switch cases are presented to leaf as
+// the synthetic comparison `tag == caseExpr`. This is a predicate-abstraction dataflow over the
+// function's own CFG, not an execution.
+func (g *Graph) ReachUnder(leaf func(ast.Expr) tri, blocked func(int) bool) []bool {
+	pruned := map[[2]int]bool{}
+	for i, b := range g.C.Blocks {
+		if !b.Live || len(b.Succs) != 2 || len(b.Nodes) == 0 {
+			continue
+		}
+		cond, ok := b.Nodes[len(b.Nodes)-1].(ast.Expr)
+		if !ok {
+			continue
+		}
+		ev := g.off[i] + len(b.Nodes)
+		var val tri
+		switch b.Succs[0].Kind {
+		case cfg.KindIfThen, cfg.KindForBody:
+			val = evalTri(cond, leaf)
+		case cfg.KindSwitchCaseBody:
+			cc, _ := b.Succs[0].Stmt.(*ast.CaseClause)
+			var sw *ast.SwitchStmt
+			if cc != nil {
+				if blk, ok := g.F.ParentOf(cc).(*ast.BlockStmt); ok {
+					sw, _ = g.F.ParentOf(blk).(*ast.SwitchStmt)
+				}
+			}
+			if sw == nil {
+				continue // type switch etc.
+			}
+			if sw.Tag != nil {
+				val = leaf(&ast.BinaryExpr{X: sw.Tag, Op: token.EQL, Y: cond})
+			} else {
+				val = evalTri(cond, leaf)
+			}
+		default:
+			continue
+		}
+		switch val {
+		case triTrue:
+			pruned[[2]int{ev, 1}] = true
+		case triFalse:
+			pruned[[2]int{ev, 0}] = true
+		}
+	}
+	seen, _ := g.reach([]int{g.Entry}, blocked, func(u, k int) bool { return pruned[[2]int{u, k}] })
+	return seen
+}
+
+// staleBetween reports whether a local variable mentioned in cond is (re)assigned on some path from
+// the branch at end-vertex ev to vertex v: the recorded outcome of cond then no longer describes the
+// variable's value at v.
+func (g *Graph) staleBetween(cond ast.Expr, ev, v int) bool {
+	f := g.F
+	vars := map[types.Object]bool{}
+	ast.Inspect(cond, func(n ast.Node) bool {
+		if id, ok := n.(*ast.Ident); ok {
+			if o, ok := f.Info().Uses[id].(*types.Var); ok && !o.IsField() && o.Parent() != nil && o.Pkg() != nil && o.Parent() != o.Pkg().Scope() {
+				vars[o] = true
+			}
+		}
+		return true
+	})
+	if len(vars) == 0 {
+		return false
+	}
+	if g.writeVerts == nil {
+		g.writeVerts = map[types.Object][]int{}
+		for _, w := range Writes(f.Body, false) {
+			if id, ok := ast.Unparen(w.LHS).(*ast.Ident); ok {
+				if o := f.ObjOf(id); o != nil {
+					if wv := g.VertexOf(w.Stmt); wv >= 0 {
+						g.writeVerts[o] = append(g.writeVerts[o], wv)
+					}
+				}
+			}
+		}
+	}
+	// paths that re-evaluate the condition refresh the guard, so the condition vertex is blocked
+	cv := ev - 1
+	notCond := func(u int) bool { return u == cv }
+	var after []bool
+	for o := range vars {
+		for _, wv := range g.writeVerts[o] {
+			if wv == cv {
+				continue
+			}
+			if after == nil {
+				var st []int
+				for _, x := range g.succ[ev] {
+					if x != cv {
+						st = append(st, x)
+					}
+				}
+				after, _ = g.reach(st, notCond, nil)
+			}
+			if !after[wv] || wv == v {
+				continue
+			}
+			var st []int
+			for _, x := range g.succ[wv] {
+				if x != cv {
+					st = append(st, x)
+				}
+			}
+			from, _ := g.reach(st, notCond, nil)
+			if from[v] {
+				return true
+			}
+		}
+	}
+	return false
 }
